@@ -47,17 +47,17 @@ theorem sample_index (q ch bps c j : Nat) : (q * ch + c) * bps + j = q * (ch * b
 `png_roundtrip` the reference decoder returns an image of the same width and height whose pixel (x, y),
 as a standard decoder reports it, is the caller's pixel at `pix[y*stride + k*x ..]` — with full opacity
 for Gray and RGBX (whose X sample never reaches the file). -/
-theorem decoded_pixel_values (e : Enc) (pix : Array UInt8) (width height stride : Nat) (depth colorType : UInt8)
-    (he : Usable e) (hlen : pix.size < 2 ^ 63)
+theorem decoded_pixel_values (e : Enc) (pix : Array UInt8) (plen width height stride : Nat) (depth colorType : UInt8)
+    (he : Usable e) (hlen : pix.size < 2 ^ 63) (hple : plen ≤ pix.size)
     (hw : 0 < width) (hw2 : width ≤ 0xFFFFFF) (hh : 0 < height) (hh2 : height ≤ 0xFFFFFF)
     (hd : depth = 8 ∨ depth = 16) (hc : colorType = 1 ∨ colorType = 2 ∨ colorType = 3)
-    (hpix : (height - 1) * stride + (loopParams depth colorType).2 * width ≤ pix.size) :
-    ∃ im, Spec.decode (concatWrites (encode e (Writer.new none) pix width height stride depth colorType).w) = some im ∧
+    (hpix : (height - 1) * stride + (loopParams depth colorType).2 * width ≤ plen) :
+    ∃ im, Spec.decode (concatWrites (encode e (Writer.new none) pix plen width height stride depth colorType).w) = some im ∧
       im.width = width ∧ im.height = height ∧ im.depth = depth.toNat ∧
       im.colorType = (pngFileFormatEncoding colorType).toNat ∧
       ∀ x y, x < width → y < height →
         im.rgba x y = some (inputRGBA pix depth colorType (y * stride + (loopParams depth colorType).2 * x)) := by
-  have h := (png_roundtrip e pix width height stride depth colorType he hlen hw hw2 hh hh2 hd hc hpix).2
+  have h := (png_roundtrip e pix plen width height stride depth colorType he hlen hple hw hw2 hh hh2 hd hc hpix).2
   refine ⟨_, h, rfl, rfl, rfl, rfl, ?_⟩
   intro x y hx hy
   have hrows : ∀ y', y' < height → y' * stride + (loopParams depth colorType).2 * width ≤ pix.size := by
@@ -88,12 +88,12 @@ theorem decoded_pixel_values (e : Enc) (pix : Array UInt8) (width height stride 
 /-- `rgbx_alpha_opaque` (the alpha clause of the property): for `ColorTypeRGBX` the file's colour type is
 2 — truecolour, three samples per pixel, no alpha channel — and every pixel is reported with the maximal
 alpha value of its depth (255 or 65535) and the caller's R, G, B. -/
-theorem rgbx_alpha_opaque (e : Enc) (pix : Array UInt8) (width height stride : Nat) (depth : UInt8)
-    (he : Usable e) (hlen : pix.size < 2 ^ 63)
+theorem rgbx_alpha_opaque (e : Enc) (pix : Array UInt8) (plen width height stride : Nat) (depth : UInt8)
+    (he : Usable e) (hlen : pix.size < 2 ^ 63) (hple : plen ≤ pix.size)
     (hw : 0 < width) (hw2 : width ≤ 0xFFFFFF) (hh : 0 < height) (hh2 : height ≤ 0xFFFFFF)
     (hd : depth = 8 ∨ depth = 16)
-    (hpix : (height - 1) * stride + (loopParams depth 2).2 * width ≤ pix.size) :
-    ∃ im, Spec.decode (concatWrites (encode e (Writer.new none) pix width height stride depth 2).w) = some im ∧
+    (hpix : (height - 1) * stride + (loopParams depth 2).2 * width ≤ plen) :
+    ∃ im, Spec.decode (concatWrites (encode e (Writer.new none) pix plen width height stride depth 2).w) = some im ∧
       im.colorType = 2 ∧ Spec.channels im.colorType = some 3 ∧
       ∀ x y, x < width → y < height →
         im.rgba x y = some (inSample pix depth (y * stride + (loopParams depth 2).2 * x) 0,
@@ -101,7 +101,7 @@ theorem rgbx_alpha_opaque (e : Enc) (pix : Array UInt8) (width height stride : N
                             inSample pix depth (y * stride + (loopParams depth 2).2 * x) 2,
                             2 ^ depth.toNat - 1) := by
   obtain ⟨im, h1, _, _, _, h5, h6⟩ :=
-    decoded_pixel_values e pix width height stride depth 2 he hlen hw hw2 hh hh2 hd (Or.inr (Or.inl rfl)) hpix
+    decoded_pixel_values e pix plen width height stride depth 2 he hlen hple hw hw2 hh hh2 hd (Or.inr (Or.inl rfl)) hpix
   have hct : im.colorType = 2 := by rw [h5]; decide
   refine ⟨im, h1, hct, by rw [hct]; rfl, ?_⟩
   intro x y hx hy
@@ -110,9 +110,9 @@ theorem rgbx_alpha_opaque (e : Enc) (pix : Array UInt8) (width height stride : N
 
 /-- non-vacuity and a concrete instance: a 1×1 RGBX pixel (1, 2, 3, X = 0x55) on a fresh encoder decodes
 to (1, 2, 3, 255). -/
-example : ∃ im, Spec.decode (concatWrites (encode Enc.new (Writer.new none) #[1, 2, 3, 0x55] 1 1 4 8 2).w) = some im ∧
+example : ∃ im, Spec.decode (concatWrites (encode Enc.new (Writer.new none) #[1, 2, 3, 0x55] 4 1 1 4 8 2).w) = some im ∧
     im.rgba 0 0 = some (1, 2, 3, 255) := by
-  obtain ⟨im, h1, _, _, h4⟩ := rgbx_alpha_opaque Enc.new #[1, 2, 3, 0x55] 1 1 4 8 new_usable (by decide) (by decide)
+  obtain ⟨im, h1, _, _, h4⟩ := rgbx_alpha_opaque Enc.new #[1, 2, 3, 0x55] 4 1 1 4 8 new_usable (by decide) (by decide) (by decide)
     (by decide) (by decide) (by decide) (Or.inl rfl) (by decide)
   exact ⟨im, h1, by rw [h4 0 0 (by decide) (by decide)]; decide⟩
 
@@ -146,16 +146,17 @@ theorem imageBytes_congr (pix pix' : Array UInt8) (n k width stride height : Nat
 
 /-- `rgbx_ignores_x` ("the 4th channel is ignored"): two RGBX buffers that differ only in their X
 samples encode to files that decode to the same image. -/
-theorem rgbx_ignores_x (e e' : Enc) (pix pix' : Array UInt8) (width height stride : Nat) (depth : UInt8)
+theorem rgbx_ignores_x (e e' : Enc) (pix pix' : Array UInt8) (plen plen' width height stride : Nat) (depth : UInt8)
     (he : Usable e) (he' : Usable e') (hlen : pix.size < 2 ^ 63) (hlen' : pix'.size < 2 ^ 63)
+    (hple : plen ≤ pix.size) (hple' : plen' ≤ pix'.size)
     (hw : 0 < width) (hw2 : width ≤ 0xFFFFFF) (hh : 0 < height) (hh2 : height ≤ 0xFFFFFF)
     (hd : depth = 8 ∨ depth = 16)
-    (hpix : (height - 1) * stride + (loopParams depth 2).2 * width ≤ pix.size)
-    (hpix' : (height - 1) * stride + (loopParams depth 2).2 * width ≤ pix'.size)
+    (hpix : (height - 1) * stride + (loopParams depth 2).2 * width ≤ plen)
+    (hpix' : (height - 1) * stride + (loopParams depth 2).2 * width ≤ plen')
     (hsame : ∀ y x i, y < height → x < width → i < (loopParams depth 2).1 →
       rd pix (y * stride + (loopParams depth 2).2 * x + i) = rd pix' (y * stride + (loopParams depth 2).2 * x + i)) :
-    Spec.decode (concatWrites (encode e (Writer.new none) pix width height stride depth 2).w) =
-    Spec.decode (concatWrites (encode e' (Writer.new none) pix' width height stride depth 2).w) := by
+    Spec.decode (concatWrites (encode e (Writer.new none) pix plen width height stride depth 2).w) =
+    Spec.decode (concatWrites (encode e' (Writer.new none) pix' plen' width height stride depth 2).w) := by
   have hrows : ∀ (p : Array UInt8), (height - 1) * stride + (loopParams depth 2).2 * width ≤ p.size →
       ∀ y, y < height → y * stride + (loopParams depth 2).2 * width ≤ p.size := by
     intro p hp y' h2
@@ -163,8 +164,8 @@ theorem rgbx_ignores_x (e e' : Enc) (pix pix' : Array UInt8) (width height strid
     omega
   obtain ⟨ch, _, _, hnk, _⟩ := loopParams_cases depth 2 hd (Or.inr (Or.inl rfl))
   have hn : 0 < (loopParams depth 2).1 := by rcases hd with rfl | rfl <;> decide
-  rw [(png_roundtrip e pix width height stride depth 2 he hlen hw hw2 hh hh2 hd (Or.inr (Or.inl rfl)) hpix).2,
-    (png_roundtrip e' pix' width height stride depth 2 he' hlen' hw hw2 hh hh2 hd (Or.inr (Or.inl rfl)) hpix').2,
-    imageBytes_congr pix pix' _ _ width stride height hnk hn hw (hrows pix hpix) (hrows pix' hpix') hsame]
+  rw [(png_roundtrip e pix plen width height stride depth 2 he hlen hple hw hw2 hh hh2 hd (Or.inr (Or.inl rfl)) hpix).2,
+    (png_roundtrip e' pix' plen' width height stride depth 2 he' hlen' hple' hw hw2 hh hh2 hd (Or.inr (Or.inl rfl)) hpix').2,
+    imageBytes_congr pix pix' _ _ width stride height hnk hn hw (hrows pix (by omega)) (hrows pix' (by omega)) hsame]
 
 end WuffsVerif.Props.C19
